@@ -383,7 +383,10 @@ func newSrvEnv(cfg *config.Config) (*srvEnv, error) {
 // Callers connect one at a time (dialMu), so the accepted connection is the dialled one.
 var dialMu sync.Mutex
 
-func (e *srvEnv) connect(id int) (*client, error) {
+func (e *srvEnv) connect(id int) (*client, error) { return e.connectOpt(id, true) }
+
+// connectOpt: read=false gives a client nobody reads from (no reader goroutine).
+func (e *srvEnv) connectOpt(id int, read bool) (*client, error) {
 	dialMu.Lock()
 	defer dialMu.Unlock()
 	conn, err := net.Dial("tcp", e.ln.Addr().String())
@@ -408,6 +411,11 @@ func (e *srvEnv) connect(id int) (*client, error) {
 		mgr.Handle(e.ctx, srv)
 		close(done)
 	}()
+	if !read {
+		c := &client{id: id, conn: conn, srv: srv, done: done}
+		c.cond = sync.NewCond(&c.mu)
+		return c, nil
+	}
 	return newClient(id, conn, srv, done), nil
 }
 
